@@ -211,11 +211,20 @@ def c06_jobs(tier):
                 if not elem_supports(el, op): continue
                 for (n, cap) in (cells(tier) if el == 'TrX' else [(2, 2), (2, 4)]):
                     js.append(ops_job(op, el, n, cap, fmask=J.K_ALL, extra_defs={'VF_NFAULTS': 2}, witness=FAULT_W, tag='-2f'))
-    tb = two_basic(tier, 'TrX', fmask=J.K_ALL, afls=((0, 1), (0, 0)))
-    js += [j for j in tb if tier != 'quick' or (j.defs['VF_CAPA'], j.defs['VF_CAPB']) in ((2, 4), (4, 4), (3, 3))]
+    if tier == 'quick':
+        tb = two_basic(tier, 'TrX', fmask=J.K_ALL, afls=((0, 0),), ops=[o for o in OPS2_ALL if o not in ('swap', 'nm_swap')])
+        js += [j for j in tb if (j.defs['VF_CAPA'], j.defs['VF_CAPB']) in ((2, 4), (4, 4), (3, 3))]
+        js.append(two_job('move_assign', 'TrX', 2, 2, 4, 4, fmask=J.K_ALL)); js.append(two_job('copy_assign', 'TrX', 2, 2, 4, 4, fmask=J.K_ALL))
+        for sa in (1, 2): js.append(two_job('swap', 'TrX', 2, 2, 2, 4, ideq=0, fmask=J.K_ALL, sizea=sa))   # swap: measured > 10 GB with both sizes symbolic
+        js.append(two_job('swap', 'TrX', 2, 2, 2, 2, fmask=J.K_ALL, sizea=1))
+    else:
+        js += two_basic(tier, 'TrX', fmask=J.K_ALL, afls=((0, 1), (0, 0)), ops=[o for o in OPS2_ALL if o not in ('swap', 'nm_swap')])
+        for (ca, cb) in [(2, 2), (2, 4), (4, 2), (4, 4)]:
+            for sa in range(0, ca + 1):
+                for ideq in (0, 1): js.append(two_job('swap', 'TrX', 2, 2, ca, cb, ideq=ideq, fmask=J.K_ALL, sizea=sa))
     from .jobs import rng_job
     for op in ['ctor_range', 'assign_range', 'insert_range', 'append_range']:
-        js.append(rng_job(op, 'TrX', 2, 2 if op == 'ctor_range' else 4, itk=1, fmask=J.K_ALL | K_ITER_)); js.append(rng_job(op, 'int', 2, 2 if op == 'ctor_range' else 4, itk=0, fmask=K_ITER_, lenfix=2))
+        js.append(rng_job(op, 'TrX', 2, 2 if op == 'ctor_range' else 4, itk=1, fmask=J.K_ALL | K_ITER_, length=2 if op == 'insert_range' else 3)); js.append(rng_job(op, 'int', 2, 2 if op == 'ctor_range' else 4, itk=0, fmask=K_ITER_, lenfix=2))
     for op in ['ctor_count', 'ctor_count_val', 'ctor_gen', 'ctor_il']: js.append(rng_job(op, 'TrX', 2, 2, fmask=J.K_ALL | J.K_GEN))
     return _nn(js)
 REG['C06'] = Spec('C06', c06_jobs, tags=['C06', 'C02', 'C03', 'C04'], memsafe=True, explanation=
